@@ -44,6 +44,25 @@ class Rewrite(ast.NodeTransformer):
                 return ast.Call(_name("__symx_get__"), [f.value] + node.args, [])
         return node
 
+    def visit_JoinedStr(self, node):
+        parts = []
+        for v in node.values:
+            if isinstance(v, ast.Constant):
+                parts.append(v)
+            elif isinstance(v, ast.FormattedValue):
+                val = self.visit(v.value)
+                spec = v.format_spec
+                if spec is None:
+                    spec_node = ast.Constant("")
+                elif isinstance(spec, ast.JoinedStr) and all(isinstance(x, ast.Constant) for x in spec.values):
+                    spec_node = ast.Constant("".join(x.value for x in spec.values))
+                else:
+                    return self.generic_visit(node)
+                parts.append(ast.Tuple([val, ast.Constant(v.conversion), spec_node], ast.Load()))
+            else:
+                return self.generic_visit(node)
+        return ast.Call(_name("__symx_fstring__"), parts, [])
+
     def visit_Compare(self, node):
         self.generic_visit(node)
         if len(node.ops) == 1 and isinstance(node.ops[0], (ast.In, ast.NotIn)):
